@@ -277,9 +277,9 @@ Definition roll_of (b : backend) : row -> Z -> row := match b with BFortran => f
 
 (* ================================================================================================ named constants *)
 (* `pi` in an equation: numpy.pi / torch.pi / jax.numpy.pi are the float64 nearest to pi.  The Fortran module declares
-   `double precision :: PI = 4.0*atan(1.0)`: a single-precision expression, i.e. float32(pi), widened (finding D1xx-fortran-pi;
-   repaired by fixes/fix_D1xx_fortran_pi.diff: 4.0d0*atan(1.0d0)).  Flip the switch when that patch lands. *)
-Definition fixed_fortran_pi : bool := false.
+   `double precision :: PI = 4.0d0*atan(1.0d0)` since fix D108 (commit 8594124).  Before, `4.0*atan(1.0)` was a single-precision
+   expression, i.e. float32(pi) widened (pi_f32 below; switch value false models that tree). *)
+Definition fixed_fortran_pi : bool := true.
 Definition pi_f64 : Qc := Q2Qc (884279719003555 # 281474976710656).
 Definition pi_f32 : Qc := Q2Qc (13176795 # 4194304).
 Definition backend_pi (b : backend) : Qc :=
